@@ -184,7 +184,7 @@ TNext ==
        IN /\ \A i \in 1..Len(out.say) : PrintT(out.say[i])
           /\ \A i \in 1..Len(out.bad) :
                 PrintT(<<"REJECT", Get(e, "tid", 0), l, out.bad[i][1], out.bad[i][2]>>)
-          /\ IF out.bad = <<>> THEN TRUE ELSE TLCSet(2, TLCGet(2) + 1)
+          /\ IF out.bad = <<>> THEN TRUE ELSE TLCSet(2, TLCGet(2) + Len(out.bad))
           /\ st' = out.st
     /\ l' = l + 1
     /\ TLCSet(1, l)
